@@ -1,5 +1,6 @@
 import Qryn.LogQL.Process
 import Qryn.Proofs.LogQLPlan
+import Qryn.Gen.PlannerGlobals
 /-! # C14 — query translation is deterministic and a prepared plan can be re-executed -/
 namespace Qryn.C14
 open Qryn Qryn.Sql Qryn.LogQL
@@ -9,20 +10,16 @@ open Qryn Qryn.Sql Qryn.LogQL
     package-level state is the regenerated fact `Gen.PlannerGlobals`, see `planner_globals_immutable`.) -/
 theorem first_execution (c : Ctx) (q : LogQuery) : (process {} c q).2 = planLog c q := rfl
 
-theorem runs_cached (chain : List (Alias × Sel)) (q : LogQuery) (cs : List Ctx) :
-    runs ⟨some chain⟩ q cs = cs.map (fun c => planLogWith chain c q) := by
-  induction cs with
+/-- **process_stable.** Re-executing a prepared plan any number of times, from any memo state and with any
+    contexts: every statement is exactly the translation for ITS context — nothing is carried over between
+    executions. -/
+theorem process_stable (st : PlanState) (q : LogQuery) (cs : List Ctx) :
+    runs st q cs = cs.map (fun c => planLog c q) := by
+  induction cs generalizing st with
   | nil => rfl
-  | cons c cs ih => simp [runs, process, ih]
-
-/-- **process_stable.** Re-executing a prepared plan any number of times, with any contexts: the first
-    statement is the translation for the first context; every later one is the translation for ITS context
-    except that the fingerprint sub-queries are those built for the first context. Nothing else is carried
-    over between executions. -/
-theorem process_stable (q : LogQuery) (c0 : Ctx) (cs : List Ctx) :
-    runs {} q (c0 :: cs) = planLog c0 q :: cs.map (fun c => planLogWith (chainOf c0 q) c q) := by
-  simp only [runs, process, Option.getD_none, List.cons.injEq]
-  exact ⟨rfl, runs_cached _ _ _⟩
+  | cons c cs ih =>
+    simp only [runs, List.map_cons, List.cons.injEq]
+    exact ⟨rfl, ih _⟩
 
 /-- the fingerprint chain depends on the context only through the index date bound, the signal type and the table names -/
 theorem chain_depends_on (a b : Ctx) (q : LogQuery) (hs : a.sameStatic b)
@@ -39,26 +36,50 @@ theorem chain_depends_on (a b : Ctx) (q : LogQuery) (hs : a.sameStatic b)
     | cons lc conds ih => intro cur k; simp [fpChain, hlf, ih]
   simp [chainOf, hss, this]
 
-/-- **reexecution_same_meaning.** While the re-executions stay on the same index day (start − 30 min in UTC)
-    and only the time bounds advance, every re-executed statement IS the translation for its own context, hence
-    (C07.plan_correct) returns exactly the entries of the direct reading for the advanced window. -/
-theorem reexecution_same_meaning (o : Oracles) (d : LokiDb) (q : LogQuery) (c0 c : Ctx) (hn : c.namesOk)
-    (hs : c0.sameStatic c) (hd : Time.formatFromDate c0.fromNs = Time.formatFromDate c.fromNs)
-    (hlim : 0 ≤ c.limit) (hm : q.matchers.length ≤ 63) :
-    evalSel o (d.toDb c) (planLogWith (chainOf c0 q) c q) = evalLog o c d q := by
-  rw [chain_depends_on c0 c q hs hd]
-  exact planLog_correct o c hn d q hlim hm
+/-- **reexecution_same_meaning.** Every re-executed statement returns exactly the entries of the direct
+    reading for the window of its own context (by C07.plan_correct): the same meaning as the first execution
+    apart from the advancing time bounds. -/
+theorem reexecution_same_meaning (o : Oracles) (d : LokiDb) (q : LogQuery) (st : PlanState) (c : Ctx)
+    (hn : c.namesOk) (hlim : 0 ≤ c.limit) (hm : q.matchers.length ≤ 63) :
+    evalSel o (d.toDb c) (process st c q).2 = evalLog o c d q :=
+  planLog_correct o c hn d q hlim hm
 
-/-- re-executions differ from the first statement only inside the three context-dependent sub-queries
-    (`main`: window bounds; `_time_series`: date bound; final ORDER BY direction is static): same WITH aliases in
-    the same order, same projection, same FROM. -/
-theorem reexecution_same_shape (q : LogQuery) (c0 c : Ctx) :
-    ((planLogWith (chainOf c0 q) c q).withs.map (·.1)) = ((planLog c0 q).withs.map (·.1)) := by
-  simp [planLogWith, planLog, chainOf, Sel.withs]
+/-- what the code did before the fix (the memo was never cleared): executions after the first kept the
+    fingerprint chain of the FIRST context; with contexts on different index days that is a different
+    statement than the translation for the current context -/
+theorem stale_chain_differs :
+    ∃ (q : LogQuery) (c0 c : Ctx), c0.sameStatic c ∧ chainOf c0 q ≠ chainOf c q := by
+  refine ⟨⟨[⟨[97], .eq, [98]⟩], []⟩, ⟨0, 1, 0, false, 1, false, "g", "s", "t", "t"⟩,
+    ⟨86400000000000 * 2, 86400000000000 * 2 + 1, 0, false, 1, false, "g", "s", "t", "t"⟩,
+    ⟨rfl, rfl, rfl, rfl, rfl, rfl, rfl, rfl⟩, ?_⟩
+  intro h
+  -- the index date bound of the two chains: 1969-12-31 vs 1970-01-02
+  have hd : Time.formatFromDate 0 ≠ Time.formatFromDate (86400000000000 * 2) := by decide
+  let chainDate : List (Alias × Sel) → Option Bytes := fun ch =>
+    match ch with
+    | [(_, .mk _ _ _ _ _ _ (some (.logical _ (.logical _ [_, .str d] :: _))) _ _ _ _)] => some d
+    | _ => none
+  have h' := congrArg chainDate h
+  exact hd (Option.some.inj h')
 
 -- non-vacuity: two executions one second apart
 example : (runs {} ⟨[⟨[97], .eq, [98]⟩], []⟩
     [⟨1700000000000000000, 1700000300000000000, 0, false, 1, false, "g", "s", "t", "t"⟩,
      ⟨1700000001000000000, 1700000301000000000, 0, false, 1, false, "g", "s", "t", "t"⟩]).length = 2 := rfl
 
+end Qryn.C14
+
+namespace Qryn.C14
+/-- **planner_globals_immutable.** The only package-level variables of the query-translation packages
+    (regenerated inventory) are lexer/parser definitions and lookup tables initialised once and never assigned:
+    a translation cannot depend on earlier translations through package state. A new package-level variable
+    changes the inventory and fails this obligation. -/
+theorem planner_globals_immutable :
+    Qryn.Gen.plannerGlobals =
+      ["reader/logql/logql_parser.LogQLLexerDefinition", "reader/logql/logql_parser.LogQLLexerRulesV2",
+       "reader/logql/logql_transpiler_v2/clickhouse_planner.regexParserDesc",
+       "reader/logql/logql_transpiler_v2/shared.symbols",
+       "reader/prof/parser.LogQLLexerRulesV2", "reader/prof/parser.Parser", "reader/prof/parser.ProfLexerDefinition",
+       "reader/prof/parser.parseReg",
+       "reader/traceql/parser.TraceQLLexerDefinition", "reader/traceql/parser.TraceQLLexerRulesV2"] := by decide
 end Qryn.C14
